@@ -349,8 +349,8 @@ def same_pt(a, b, exact):
     return abs(a[0] - b[0]) <= 1e-12 * s and abs(a[1] - b[1]) <= 1e-12 * s
 
 
-def check_enforce(pre, op, post):
-    """move / copy commands: tolerance of the command, images present (or merged), properties kept"""
+def raw_points(pre, op):
+    """the point list handed to enforcePSLG by a move / copy command, the images it must contain, the label images"""
     fs, mode, exact = transform_of(op)
     if fs is None or mode is None or not (0 <= mode <= 4):
         return None
@@ -393,6 +393,22 @@ def check_enforce(pre, op, post):
             limages.append((f((pre["labels"][i][0], pre["labels"][i][1])), pre["labels"][i]))
     if not all(fin(*p) for p in raw):
         return None
+    return raw, images, limages, exact, copying
+
+
+def enforce_tolerance(pre, op):
+    r = raw_points(pre, op)
+    return None if r is None else tol_of_points(r[0])
+
+
+def check_enforce(pre, op, post):
+    """move / copy commands: tolerance of the command, images present (or merged), properties kept"""
+    r = raw_points(pre, op)
+    if r is None:
+        return None
+    raw, images, limages, exact, copying = r
+    if not all(fin(*p) for p in raw):
+        return None
     d = tol_of_points(raw)
     if exact:
         msg = pairwise_at_least(post, d)
@@ -428,8 +444,33 @@ def check_enforce(pre, op, post):
     return None
 
 
-def double_split_possible(pre, op):
-    return op[0] in ("addnode", "addsegment", "movetranslate", "moverotate", "scale", "copytranslate", "copyrotate", "mirror")
+def duplicate_from_split(pre, op, post):
+    """the duplicated segment pair has an end point that this command created (add commands: a new index;
+    commands that rebuild the drawing: a point that is not one of the transformed input points), i.e. the
+    duplicate comes out of addNode's segment split and not out of addSegment's own duplicate test"""
+    seen, dups = {}, []
+    for i, s in enumerate(post["segs"]):
+        key = (min(s[0], s[1]), max(s[0], s[1]))
+        if key in seen:
+            dups.append(key)
+        seen[key] = i
+    if not dups:
+        return False
+    if op[0] in ("addnode", "addsegment", "addarc"):
+        n0 = len(pre["nodes"])
+        return all(k[1] >= n0 for k in dups)
+    if op[0] in ENFORCE:
+        fs, mode, exact = transform_of(op)
+        if fs is None:
+            return False
+        inputs = set((n[0], n[1]) for n in pre["nodes"])
+        for f in fs:
+            for n in pre["nodes"]:
+                inputs.add(f((n[0], n[1])))
+        if not exact:
+            return True
+        return all(any((post["nodes"][e][0], post["nodes"][e][1]) not in inputs for e in k) for k in dups)
+    return False
 
 
 # ------------------------------------------------------------------------ one command ----
